@@ -8,5 +8,5 @@ m = {"id": sid, "property": prop, "breaks": breaks, "needs": needs, "demo_pkg": 
      "detected_initially": init == 'true', "detected_by": by,
      "ran": {"demo_without_change_exit": r["demo_without_exit"], "demo_with_change_exit": r["demo_with_exit"],
              "build_with_change_exit": r["build_exit"], "existing_pkg_tests_with_change_exit": r["pkgtests_exit"],
-             "commands": "tools/seedcheck.sh (go build ./...; go test -run TestSeeded with and without the patch in a scratch worktree; go test of the package with the patch; ./check <property> quick with the patch applied to /repo, then reverted)"}}
+             "commands": "tools/seedcheck.sh (go build ./...; go test -run TestSeeded with and without the patch in a scratch worktree; go test of the package with the patch; ./check <property> quick with the patch applied to a private checkout of /repo HEAD (PVC_ALT_REPO), removed afterwards)"}}
 json.dump(m, open(d + '/meta.json', 'w'), indent=1)
